@@ -38,8 +38,8 @@ fn undo_renames_in_facts(cx: &Ctx, mut f: Facts) -> Facts {
         let _ = sm::load(&cx.repo, rel);
     }
     let maps: Vec<(String, BTreeMap<String, String>)> = sm::FN_RENAMES.with(|r| r.borrow().iter().map(|(k, v)| (k.clone(), v.clone())).collect());
-    fold_new_helpers(&mut f);
     if maps.is_empty() {
+        fold_new_helpers(&mut f);
         return f;
     }
     let fix = |name: &str, file: &str| -> String {
@@ -74,6 +74,8 @@ fn undo_renames_in_facts(cx: &Ctx, mut f: Facts) -> Facts {
             v.producer = fix(&v.producer, &v.file);
         }
     }
+    // (after the renames: a renamed reviewed helper is not a new helper)
+    fold_new_helpers(&mut f);
     f
 }
 
